@@ -63,6 +63,18 @@ fn check_text(s: &String, case: &mut Case) -> Result<(), Fail> {
             labels
         );
     }
+    // the conversion traits are the same constructor under another name
+    let conv = lib("Name::try_from(&str)", || Name::try_from(s.as_str()).map(|n| oname(&n)))?;
+    ensure!(conv.is_ok() == want, "c17:try-from", "Name::try_from({:?}).is_ok() = {}, the grammar says {}", s, conv.is_ok(), want);
+    if let Ok(labels) = conv {
+        ensure!(
+            labels.0.iter().map(|l| l.0.as_slice()).collect::<Vec<_>>() == ps.iter().map(|p| p.as_bytes()).collect::<Vec<_>>(),
+            "c17:try-from",
+            "labels of Name::try_from({:?}) are {:?}",
+            s,
+            labels
+        );
+    }
     // single label constructor obeys the same label rule (no dot splitting there)
     if !s.contains('.') {
         let l = lib("Label::new", || Label::new(s.as_bytes()))?;
